@@ -615,6 +615,7 @@ package ackhandler
 //@   props C06
 //@   let n0 = old(len(h.pathProbePackets))
 //@   ensures [at-most-one] len(h.pathProbePackets) == n0 || len(h.pathProbePackets) == n0 - 1
+//@   ensures [in-place] samearray(h.pathProbePackets, old(h.pathProbePackets))
 //@   ensures [found-iff-removed] iff(result != nil, len(h.pathProbePackets) == n0 - 1) || result == nil
 //@   ensures [removed-iff-present] iff(len(h.pathProbePackets) == n0 - 1, exists(k, 0, n0, old(h.pathProbePackets[k].PacketNumber) == pn))
 //@   ensures [first-match-removed] implies(idx != -1, 0 <= idx && idx < n0 && old(h.pathProbePackets[idx].PacketNumber) == pn && result == old(h.pathProbePackets[idx].packet) && forall(k, 0, idx, old(h.pathProbePackets[k].PacketNumber) != pn))
@@ -771,3 +772,185 @@ package ackhandler
 //@   ensures [bounds-copied] ack.AckRanges[len(ack.AckRanges) - 1].Smallest == arg0.Start && ack.AckRanges[len(ack.AckRanges) - 1].Largest == arg0.End
 //@   ensures [earlier-ranges-kept] forall(k, 0, old(len(ack.AckRanges)), ack.AckRanges[k].Smallest == old(ack.AckRanges[k].Smallest) && ack.AckRanges[k].Largest == old(ack.AckRanges[k].Largest))
 //@   modifies ack.AckRanges, elems(wire.AckRange)
+
+// ---------------- ReceivedPacketHandler: routing of a packet to the tracker of ITS number space (C07) ----------------
+// A packet number is looked up, recorded and acknowledged in the space of its own encryption level only; 0-RTT and 1-RTT
+// share the application-data space. A dropped space (nil tracker) neither records nor reports duplicates.
+//@ func (h *ReceivedPacketHandler) ReceivedPacket
+//@   props C07
+//@   requires 0 <= pn && pn <= 4611686018427387903 && 0 <= rcvTime && rcvTime <= 4611686018427387903
+//@   requires implies(encLevel == 1, h.initialPackets != nil && h.initialPackets.packetHistory.rInv() && h.initialPackets.ect0 < 9223372036854775807 && h.initialPackets.ect1 < 9223372036854775807 && h.initialPackets.ecnce < 9223372036854775807)
+//@   requires implies(encLevel == 2 && h.handshakePackets != nil, h.handshakePackets.packetHistory.rInv() && h.handshakePackets.ect0 < 9223372036854775807 && h.handshakePackets.ect1 < 9223372036854775807 && h.handshakePackets.ecnce < 9223372036854775807)
+//@   requires implies(encLevel >= 3, h.appDataPackets.tInv() && 0 <= h.appDataPackets.largestObserved && h.appDataPackets.largestObserved <= 4611686018427387903 && h.appDataPackets.ackElicitingPacketsReceivedSinceLastAck < 4611686018427387902 && h.appDataPackets.ect0 < 9223372036854775806 && h.appDataPackets.ect1 < 9223372036854775806 && h.appDataPackets.ecnce < 9223372036854775806)
+//@   requires h.lowest1RTTPacket >= -1
+//@   requires h.initialPackets != &h.appDataPackets.receivedPacketTracker && h.handshakePackets != &h.appDataPackets.receivedPacketTracker && (h.initialPackets == nil || h.initialPackets != h.handshakePackets)
+//@   panics when encLevel < 1 || encLevel > 4
+//@   ensures [initial-dup-iff] implies(encLevel == 1, iff(result != nil, pn < old(h.initialPackets.packetHistory.deletedBelow) || old(covered(&h.initialPackets.packetHistory, pn))))
+//@   ensures [initial-ack-now] implies(encLevel == 1 && result == nil && ackEliciting, h.initialPackets.hasNewAck)
+//@   ensures [handshake-dropped] implies(encLevel == 2 && h.handshakePackets == nil, result == nil)
+//@   ensures [handshake-dup-iff] implies(encLevel == 2 && h.handshakePackets != nil, iff(result != nil, pn < old(h.handshakePackets.packetHistory.deletedBelow) || old(covered(&h.handshakePackets.packetHistory, pn))))
+//@   ensures [handshake-ack-now] implies(encLevel == 2 && h.handshakePackets != nil && result == nil && ackEliciting, h.handshakePackets.hasNewAck)
+//@   ensures [0rtt-after-1rtt-rejected] implies(encLevel == 3 && old(h.lowest1RTTPacket) != -1 && pn > old(h.lowest1RTTPacket), result != nil && h.appDataPackets.largestObserved == old(h.appDataPackets.largestObserved) && h.appDataPackets.ackQueued == old(h.appDataPackets.ackQueued) && called("(*appDataReceivedPacketTracker).ReceivedPacket") == 0)
+//@   ensures [appdata-dup-iff] implies(encLevel == 4 || (encLevel == 3 && !(old(h.lowest1RTTPacket) != -1 && pn > old(h.lowest1RTTPacket))), iff(result != nil, pn < old(h.appDataPackets.packetHistory.deletedBelow) || old(covered(&h.appDataPackets.packetHistory, pn))))
+//@   ensures [appdata-deadline] implies(encLevel >= 3 && result == nil && ackEliciting, h.appDataPackets.ackQueued || (h.appDataPackets.ackAlarm != 0 && h.appDataPackets.ackAlarm <= rcvTime + h.appDataPackets.maxAckDelay) || rcvTime + h.appDataPackets.maxAckDelay == 0)
+//@   ensures [lowest-1rtt] h.lowest1RTTPacket == ite(encLevel == 4 && (old(h.lowest1RTTPacket) == -1 || pn < old(h.lowest1RTTPacket)), pn, old(h.lowest1RTTPacket))
+//@   ensures [spaces-separate-initial] implies(encLevel == 1, h.appDataPackets.largestObserved == old(h.appDataPackets.largestObserved) && h.appDataPackets.ackQueued == old(h.appDataPackets.ackQueued) && h.appDataPackets.hasNewAck == old(h.appDataPackets.hasNewAck) && len(h.appDataPackets.packetHistory.ranges) == old(len(h.appDataPackets.packetHistory.ranges)))
+//@   ensures [spaces-separate-appdata] implies(encLevel >= 3 && h.initialPackets != nil, h.initialPackets.hasNewAck == old(h.initialPackets.hasNewAck) && len(h.initialPackets.packetHistory.ranges) == old(len(h.initialPackets.packetHistory.ranges)))
+//@   modifies h.lowest1RTTPacket, heap(receivedPacketTracker.ect0), heap(receivedPacketTracker.ect1), heap(receivedPacketTracker.ecnce), heap(receivedPacketTracker.hasNewAck), heap(receivedPacketHistory.ranges), elems(interval), h.appDataPackets.largestObserved, h.appDataPackets.largestObservedRcvdTime, h.appDataPackets.ackElicitingPacketsReceivedSinceLastAck, h.appDataPackets.ackQueued, h.appDataPackets.ackAlarm
+
+//@ func (h *ReceivedPacketHandler) IgnorePacketsBelow
+//@   props C07
+//@   requires h.appDataPackets.tInv()
+//@   ensures [monotone] h.appDataPackets.ignoreBelow == max(old(h.appDataPackets.ignoreBelow), pn)
+//@   ensures [history-monotone] h.appDataPackets.packetHistory.deletedBelow >= old(h.appDataPackets.packetHistory.deletedBelow)
+//@   ensures [other-spaces-untouched] h.initialPackets == old(h.initialPackets) && h.handshakePackets == old(h.handshakePackets)
+//@   modifies h.appDataPackets.ignoreBelow, h.appDataPackets.packetHistory.deletedBelow, h.appDataPackets.packetHistory.ranges, h.appDataPackets.packetHistory.ranges[*]
+
+//@ func (h *ReceivedPacketHandler) DropPackets
+//@   props C07
+//@   panics when encLevel != 1 && encLevel != 2 && encLevel != 3
+//@   ensures [initial] h.initialPackets == ite(encLevel == 1, nil, old(h.initialPackets))
+//@   ensures [handshake] h.handshakePackets == ite(encLevel == 2, nil, old(h.handshakePackets))
+//@   modifies h.initialPackets, h.handshakePackets
+
+//@ func (h *appDataReceivedPacketTracker) GetAlarmTimeout
+//@   props C07
+//@   ensures [value] result == h.ackAlarm
+//@   modifies nothing
+
+//@ func (h *ReceivedPacketHandler) GetAlarmTimeout
+//@   props C07
+//@   ensures [value] result == h.appDataPackets.ackAlarm
+//@   modifies nothing
+
+//@ func (h *ReceivedPacketHandler) IsPotentiallyDuplicate
+//@   props C07
+//@   requires implies(encLevel == 1 && h.initialPackets != nil, h.initialPackets.packetHistory.rInv())
+//@   requires implies(encLevel == 2 && h.handshakePackets != nil, h.handshakePackets.packetHistory.rInv())
+//@   requires implies(encLevel >= 3, h.appDataPackets.packetHistory.rInv())
+//@   panics when encLevel < 1 || encLevel > 4 || (encLevel == 1 && h.initialPackets == nil) || (encLevel == 2 && h.handshakePackets == nil)
+//@   ensures [initial] implies(encLevel == 1, iff(result, pn < h.initialPackets.packetHistory.deletedBelow || covered(&h.initialPackets.packetHistory, pn)))
+//@   ensures [handshake] implies(encLevel == 2, iff(result, pn < h.handshakePackets.packetHistory.deletedBelow || covered(&h.handshakePackets.packetHistory, pn)))
+//@   ensures [appdata] implies(encLevel >= 3, iff(result, pn < h.appDataPackets.packetHistory.deletedBelow || covered(&h.appDataPackets.packetHistory, pn)))
+//@   modifies nothing
+
+//@ func (h *ReceivedPacketHandler) GetAckFrame
+//@   props C07
+//@   requires 0 <= now && now <= 4611686018427387903 && 0 <= h.appDataPackets.largestObservedRcvdTime && h.appDataPackets.largestObservedRcvdTime <= 4611686018427387903 && 0 <= h.appDataPackets.ackAlarm && h.appDataPackets.ackAlarm <= 4611686018427387903
+//@   ensures [initial] implies(encLevel == 1, iff(result == nil, h.initialPackets == nil || !old(h.initialPackets.hasNewAck)) && implies(result != nil, result == h.initialPackets.lastAck))
+//@   ensures [handshake] implies(encLevel == 2, iff(result == nil, h.handshakePackets == nil || !old(h.handshakePackets.hasNewAck)) && implies(result != nil, result == h.handshakePackets.lastAck))
+//@   ensures [0rtt-never] implies(encLevel != 1 && encLevel != 2 && encLevel != 4, result == nil)
+//@   ensures [1rtt-not-before-due] implies(encLevel == 4 && onlyIfQueued && !old(h.appDataPackets.ackQueued) && (old(h.appDataPackets.ackAlarm) == 0 || old(h.appDataPackets.ackAlarm) > now), result == nil)
+//@   ensures [1rtt-sent-resets-state] implies(encLevel == 4 && result != nil, !h.appDataPackets.ackQueued && h.appDataPackets.ackAlarm == 0 && h.appDataPackets.ackElicitingPacketsReceivedSinceLastAck == 0)
+//@   ensures [other-levels-keep-1rtt-state] implies(encLevel != 4, h.appDataPackets.ackQueued == old(h.appDataPackets.ackQueued) && h.appDataPackets.ackAlarm == old(h.appDataPackets.ackAlarm))
+//@   modifies h.appDataPackets.ackQueued, h.appDataPackets.ackAlarm, h.appDataPackets.ackElicitingPacketsReceivedSinceLastAck, heap(receivedPacketTracker.hasNewAck), heap(receivedPacketTracker.lastAck), heap(wire.AckFrame.AckRanges), heap(wire.AckFrame.DelayTime), heap(wire.AckFrame.ECT0), heap(wire.AckFrame.ECT1), heap(wire.AckFrame.ECNCE), elems(wire.AckRange)
+
+// ---------------- iterators (range-over-func) ----------------
+// The function returning an iterator states, as `elem` clauses, what holds of every element the iterator yields; the
+// clauses are proved at the yield call inside the iterator literal (F$1) and assumed for each iteration where a
+// range-over-func loop over the iterator is composed with its body's contract (DESIGN 6.2, "range-over-func composition").
+//@ func (h *sentPacketHistory) Packets
+//@   props C06
+//@   elem [non-nil] arg1 != nil
+//@   modifies nothing
+//@ func (h *sentPacketHistory) Packets$1
+//@   props C06
+//@   modifies nothing
+//@ loop (h *sentPacketHistory) Packets$1 #0
+//@   modifies nothing
+
+//@ func (h *sentPacketHistory) PathProbes
+//@   props C06
+//@   requires forall(k, 0, len(h.pathProbePackets), h.pathProbePackets[k].packet != nil)
+//@   elem [non-nil] arg1 != nil
+//@   modifies nothing
+//@ func (h *sentPacketHistory) PathProbes$1
+//@   props C06
+//@   requires forall(k, 0, len(h.pathProbePackets), h.pathProbePackets[k].packet != nil)
+//@   modifies nothing
+//@ loop (h *sentPacketHistory) PathProbes$1 #0
+//@   modifies nothing
+
+//@ func (h *sentPacketHistory) SkippedPackets
+//@   props C06
+//@   modifies nothing
+//@ func (h *sentPacketHistory) SkippedPackets$1
+//@   props C06
+//@   modifies nothing
+//@ loop (h *sentPacketHistory) SkippedPackets$1 #0
+//@   modifies nothing
+
+//@ func (t *lostPacketTracker) All
+//@   props C06
+//@   modifies nothing
+//@ func (t *lostPacketTracker) All$1
+//@   props C06
+//@   modifies nothing
+//@ loop (t *lostPacketTracker) All$1 #0
+//@   modifies nothing
+
+// ---------------- functions that contain range-over-func loops, verified by composition with the body contracts ----------------
+// detectLostPathProbes: probes are only COLLECTED while iterating (the iterator reads the live slice, so reporting or
+// removing inside the loop would skip one probe and report another twice); every collected probe is then reported and
+// removed in a second pass over the private copy.
+//@ func (h *sentPacketHandler) detectLostPathProbes$1
+//@   props C06
+//@   requires arg1 != nil
+//@   let n0 = old(len(lostPathProbes))
+//@   ensures [collect-only] called("(ackhandler.FrameHandler).OnLost") == 0 && called("(*sentPacketHistory).RemovePathProbe") == 0 && called("(*sentPacketHistory).Remove") == 0
+//@   ensures [collected-iff-timed-out] len(lostPathProbes) == n0 + ite(arg1.SendTime <= lossTime, 1, 0)
+//@   ensures [collected-is-the-element] implies(arg1.SendTime <= lossTime, lostPathProbes[n0].PacketNumber == arg0 && lostPathProbes[n0].packet == arg1)
+//@   ensures [earlier-kept] forall(k, 0, n0, lostPathProbes[k].PacketNumber == old(lostPathProbes[k].PacketNumber) && lostPathProbes[k].packet == old(lostPathProbes[k].packet))
+//@   ensures [private-copy] (samearray(lostPathProbes, old(lostPathProbes)) && cap(lostPathProbes) == old(cap(lostPathProbes))) || isfresh(lostPathProbes)
+//@   ensures [loop-continues] result
+//@   modifies lostPathProbes, lostPathProbes[:]
+
+//@ func (h *sentPacketHandler) detectLostPathProbes
+//@   props C06
+//@   requires h.appDataPackets != nil && 0 <= now && now <= 4611686018427387903
+//@   requires forall(k, 0, len(h.appDataPackets.history.pathProbePackets), h.appDataPackets.history.pathProbePackets[k].packet != nil)
+//@   ensures [nothing-outstanding-noop] implies(old(len(h.appDataPackets.history.pathProbePackets)) == 0, called("(ackhandler.FrameHandler).OnLost") == 0 && called("(*sentPacketHistory).RemovePathProbe") == 0)
+//@   ensures [flight-untouched] h.bytesInFlight == old(h.bytesInFlight)
+//@   modifies h.appDataPackets.history.pathProbePackets, h.appDataPackets.history.pathProbePackets[*]
+//@ loop (h *sentPacketHandler) detectLostPathProbes #rf1
+//@   invariant forall(k, 0, len(lostPathProbes), lostPathProbes[k].packet != nil)
+//@   invariant cap(lostPathProbes) == 0 || isfresh(lostPathProbes)
+//@   invariant len(h.appDataPackets.history.pathProbePackets) == old(len(h.appDataPackets.history.pathProbePackets))
+//@ loop (h *sentPacketHandler) detectLostPathProbes #0
+//@   invariant 0 <= rangeidx && rangeidx <= len(lostPathProbes)
+//@   invariant samearray(h.appDataPackets.history.pathProbePackets, old(h.appDataPackets.history.pathProbePackets))
+//@   modifies h.appDataPackets.history.pathProbePackets, h.appDataPackets.history.pathProbePackets[*]
+//@ loop (h *sentPacketHandler) detectLostPathProbes #1
+//@   modifies nothing
+
+// DropPackets (whole function, by composition with its loop bodies $1 and $2): the dropped space is forgotten, dropping the
+// Handshake space confirms the handshake, the PTO state is reset, and — C06's deadline clause — the loss-detection timer is
+// recomputed UNCONDITIONALLY afterwards: confirming the handshake can make outstanding 1-RTT data timer-eligible for the
+// first time, so "an alarm that is not armed needs no update" would leave such data without any deadline.
+//@ func (h *sentPacketHandler) DropPackets
+//@   props C06
+//@   let sp = ite(encLevel == 1, h.initialPackets, h.handshakePackets)
+//@   let early = (encLevel == 1 || encLevel == 2) && old(sp) == nil
+//@   requires h.sInv() && 0 <= now && now <= 4611686018427387903
+//@   panics when encLevel != 1 && encLevel != 2 && encLevel != 3
+//@   ensures [already-dropped-noop] implies(early, h.ptoCount == old(h.ptoCount) && h.bytesInFlight == old(h.bytesInFlight) && h.alarm.Time == old(h.alarm.Time))
+//@   ensures [space-forgotten] implies(!early, h.initialPackets == ite(encLevel == 1, nil, old(h.initialPackets)) && h.handshakePackets == ite(encLevel == 2, nil, old(h.handshakePackets)))
+//@   ensures [handshake-confirmed-by-dropping-handshake-space] implies(!early, h.handshakeConfirmed == (old(h.handshakeConfirmed) || encLevel == 2))
+//@   ensures [client-address-validation-complete] h.peerCompletedAddressValidation == (old(h.peerCompletedAddressValidation) || (h.perspective == protocol.PerspectiveClient && encLevel == 2))
+//@   ensures [pto-state-reset] implies(!early, h.ptoCount == 0 && h.numProbesToSend == 0 && h.ptoMode == SendNone)
+//@   ensures [timer-recomputed] implies(!early, called("(*sentPacketHandler).setLossDetectionTimer") == 1)
+//@   let initOut = h.initialPackets != nil && h.initialPackets.history.numOutstanding > 0
+//@   let hsOut = h.handshakePackets != nil && h.handshakePackets.history.numOutstanding > 0
+//@   let ampl = !h.peerAddressValidated && h.bytesSent >= 3 * h.bytesReceived
+//@   ensures [deadline-set-when-data-outstanding] implies(!early && !ampl && ((initOut && h.initialPackets.lastAckElicitingPacketTime != 0) || (hsOut && h.handshakePackets.lastAckElicitingPacketTime != 0) ||
+//@              (h.handshakeConfirmed && h.appDataPackets.history.numOutstanding > 0 && h.appDataPackets.lastAckElicitingPacketTime != 0)), h.alarm.Time != 0)
+//@   maxpaths 1500
+//@   unclaimed pre:(*sentPacketHandler).DropPackets$1@2.0 that a packet counted in bytes_in_flight is no longer than bytes_in_flight needs the sum-of-lengths invariant over the whole history; assumed (the loop body is verified against it)
+//@   unclaimed pre:(*sentPacketHandler).DropPackets$2@4.0 same
+//@   unclaimed pre:(*sentPacketHandler).DropPackets$2@4.1 the history invariant is assumed at each iteration (the loop body and Remove are verified against it)
+//@   unclaimed pre:(*sentPacketHandler).DropPackets$2@4.2 same
+//@   modifies h.peerCompletedAddressValidation, h.bytesInFlight, heap(packet.includedInBytesInFlight), h.initialPackets, h.handshakePackets, h.handshakeConfirmed, h.ptoCount, h.numProbesToSend, h.ptoMode, h.alarm.Time, h.alarm.TimerType, h.alarm.EncryptionLevel, h.appDataPackets.history.numOutstanding, h.appDataPackets.history.packets, h.appDataPackets.history.packets[*], h.appDataPackets.history.firstPacketNumber
+//@ loop (h *sentPacketHandler) DropPackets #rf1
+//@   invariant 0 <= h.bytesInFlight && h.bytesInFlight <= old(h.bytesInFlight)
+//@ loop (h *sentPacketHandler) DropPackets #rf2
+//@   invariant 0 <= h.bytesInFlight && h.bytesInFlight <= old(h.bytesInFlight)
